@@ -119,7 +119,8 @@ def put_counted(b, mod, t, n, emit):
     lb, ub, ext, root = si
     lb = lb or 0
     if ext:
-        inroot = root.contains(n)
+        # X.691 16.6/17.3/20.4/30.4: the bit says whether the length is "within the range of the extension root" (lb..ub)
+        inroot = lb <= n and (ub is None or n <= ub)
         b.put(0 if inroot else 1, 1)
         if not inroot:
             put_fragmented(b, n, emit)
@@ -209,7 +210,8 @@ class Encoder:
         specs = C.chain(self.mod, t, "value_c")
         lb, ub, ext, root = C.per_visible(specs) if specs else (None, None, False, None)
         if ext:
-            inroot = root.contains(v)
+            # X.691 13.1: "not within the range of the extension root" -- the range lb..ub, holes included
+            inroot = (lb is None or lb <= v) and (ub is None or v <= ub)
             b.put(0 if inroot else 1, 1)
             if not inroot:
                 o = int_octets(v)
